@@ -51,6 +51,8 @@ CONSTANTS
     ValidateTags,    \* TRUE: validation tags are applied (also inside plugin configs)
     StrictTypes,     \* TRUE: no weakly typed input
     UnsetIsError,    \* TRUE: a placeholder naming an unset variable / missing property is an error
+    AnyUnresolved,   \* TRUE: ... whichever of SEVERAL placeholders of one value it is (FALSE: only the last one's failure counts - wrong)
+    OneOfWhole,      \* TRUE: a oneof option is compared as a whole with each allowed word (FALSE: a value made of allowed words passes - wrong)
     DiscardDefault,  \* "true": what the CLI reader puts in when discard_overflow is absent
     StdinDefault,    \* TRUE: ... also when the configuration arrives on standard input (FALSE: only for files - wrong)
     ReflPoints       \* struct nodes found by reflection over the real config structs: seq of [v, p]
@@ -89,9 +91,19 @@ Min0F(pre, p) == << BadV(pre, p, "float", "-1", "min=0"), BadV(pre, p, "float", 
 Min0I(pre, p) == << BadV(pre, p, "int", "-1", "min=0"), Same(pre, p, "int", "0", "min=0"), Same(pre, p, "int", "1", "min=0") >>
 Min1I(pre, p) == << BadV(pre, p, "int", "-1", "min=1"), BadV(pre, p, "int", "0", "min=1"),
                     Same(pre, p, "int", "1", "min=1"), Same(pre, p, "int", "2", "min=1") >>
-FilterC(pre) == LET p == <<"answlog", "filter">> e == "all | warning | error" IN <<
+\* oneof: the value is EXACTLY one of the documented words.  Outside: near misses, case variants, substrings of a word, a padded
+\* word, and values MADE OF allowed words (what somebody writes who thinks filters can be combined) in every order / separator.
+OneOfWords == "oneof: several allowed words"
+FilterC(pre) == LET p == <<"answlog", "filter">> e == "all | warning | error" w == OneOfWords IN <<
     Same(pre, p, "str", "all", e), Same(pre, p, "str", "warning", e), Same(pre, p, "str", "error", e),
-    BadV(pre, p, "str", "errors", e), BadV(pre, p, "str", "Error", e), BadV(pre, p, "str", "ALL", e), BadV(pre, p, "str", "err", e) >>
+    BadV(pre, p, "str", "errors", e), BadV(pre, p, "str", "Error", e), BadV(pre, p, "str", "ALL", e), BadV(pre, p, "str", "err", e),
+    BadV(pre, p, "str", "All", e), BadV(pre, p, "str", "WARNING", e), BadV(pre, p, "str", "eRRor", e),
+    BadV(pre, p, "str", "al", e), BadV(pre, p, "str", "warn", e), BadV(pre, p, "str", "arn", e), BadV(pre, p, "str", "rror", e),
+    BadV(pre, p, "str", " all", e), BadV(pre, p, "str", "all ", e), BadV(pre, p, "str", " warning ", e), BadV(pre, p, "str", " ", e),
+    BadV(pre, p, "str", "all warning", w), BadV(pre, p, "str", "warning error", w), BadV(pre, p, "str", "all warning error", w),
+    BadV(pre, p, "str", "all error", w), BadV(pre, p, "str", "error all", w), BadV(pre, p, "str", "warning all", w),
+    BadV(pre, p, "str", "all  warning", w), BadV(pre, p, "str", "all,warning", w), BadV(pre, p, "str", "all|warning", w),
+    BadV(pre, p, "str", "allwarning", w), BadV(pre, p, "str", "all all", w) >>
 
 ---------------------------------------------------------------------------
 (* component templates *)
@@ -483,7 +495,8 @@ RequiredMissing(c) ==
     \/ c.kind = "dropcomp"
     \/ c.kind \in {"absent", "nullval"} /\ V.leaves[c.i].fl = "req"
     \/ c.kind = "nullcomp"
-Validation(c) == IF ValidateTags /\ ((c.kind \in {"range", "phrange"} /\ ~Bads(Variants[VarByName(c.v)])[c.i].ok) \/ RequiredMissing(c)) THEN "error" ELSE "ok"
+OutsideClass(b) == ~b.ok /\ (OneOfWhole \/ b.why # OneOfWords)
+Validation(c) == IF ValidateTags /\ ((c.kind \in {"range", "phrange"} /\ OutsideClass(Bads(Variants[VarByName(c.v)])[c.i])) \/ RequiredMissing(c)) THEN "error" ELSE "ok"
 
 \* WHEN an error is reported.  The sections behind factory-typed fields whose registered constructor builds a component
 \* (every schedule under `rps`; the grpc and grpc/scenario guns) are decoded when the factory is CALLED - by the engine at
